@@ -170,6 +170,15 @@ Definition int64_max : Z := 9223372036854775807%Z.
 Fixpoint contains (c : N) (s : bytes) : bool :=
   match s with [] => false | x :: r => (x =? c) || contains c r end.
 
+(* a path component must be non-empty and free of '/' *)
+Definition valid_component (s : bytes) : bool :=
+  match s with
+  | [] => false
+  | [46] => false            (* "." *)
+  | [46; 46] => false        (* ".." *)
+  | _ => negb (contains 47 s)
+  end.
+
 (* the files loop: offsets accumulate; a negative length or an int64 overflow is refused *)
 Fixpoint layout (fs : list bfile) (off : Z) (acc : list torfile) : option (list torfile * Z) :=
   match fs with
@@ -179,7 +188,8 @@ Fixpoint layout (fs : list bfile) (off : Z) (acc : list torfile) : option (list 
     match path with
     | [] => None
     | _ =>
-      if (bf_len f <? 0)%Z then None
+      if negb (forallb valid_component path) then None
+      else if (bf_len f <? 0)%Z then None
       else if (int64_max <? off + bf_len f)%Z then None
       else layout r (off + bf_len f)%Z
              ({| f_path := path; f_off := off; f_len := bf_len f; f_pad := contains 112 (bf_attr f) |} :: acc)
@@ -213,7 +223,7 @@ Definition metadata_complete (info : bytes) : mres :=
             let name := match i_name8 i with [] => i_name i | n => n end in
             match name with
             | [] => MErr
-            | _ => MOk {| g_name := name; g_plen := i_plen i; g_total := total; g_files := files;
+            | _ => if negb (valid_component name) then MErr else MOk {| g_name := name; g_plen := i_plen i; g_total := total; g_files := files;
                           g_nhashes := nh; g_chunks := Z.to_N chunks; g_npieces := Z.to_N np |}
             end
       end
